@@ -1200,7 +1200,11 @@ impl CanonicalizeContext {
 					continue;
 				}
 				let attr_name = match child.attribute_value("encoding") {
-					Some(encoding_name) => format!("data-{}-{}", child_name, encoding_name.replace('/', "_slash_")),
+					Some(encoding_name) => format!("data-{}-{}", child_name,
+											// the encoding becomes part of an attribute name: only name characters can stay (e.g., not '+', ';', '=', or ' ')
+											encoding_name.replace('/', "_slash_").chars()
+												.map(|ch| if ch.is_ascii_alphanumeric() || ch == '-' || ch == '_' || ch == '.' {ch} else {'_'})
+												.collect::<String>()),
 					None => format!("data-{}", child_name),		// probably shouldn't happen
 				};
 				let attr_name = attr_name.as_str();
